@@ -1,5 +1,7 @@
 import LoguruModel.Rotation.Lemmas
 import LoguruModel.Rotation.CalendarFact
+import LoguruModel.Rotation.GroupLemmas
+import LoguruModel.Rotation.CatchUp
 /-
 C07 – property theorems: time-based rotation starts a new file exactly at the boundaries the
 specification denotes.  Everything is stated about the model of `Rotation.RotationTime` whose
@@ -396,5 +398,152 @@ theorem restart_counts_from_rotation_instant (ls : List Leaf) (s : Sink) (m : Ms
         exact ih _ v (write_keeps_tag ls t m' v ht hq.1) hq.2
   have := key ops _ _ (rotation_tags_new_file ls s m hrot).1 hq
   simp [Sink.creation, this]
+
+/-! ### round 5: the catch-up loop as written, its cost -/
+
+/-- `catch_up_loop_as_written`: the loop of the source – `while self._limit <= record_time:
+self._limit = self._step_forward(self._limit)`, with NO guard against a step that stands still –
+started on a boundary `l ≤ r` of any accepted rotation: it leaves through its condition, its body
+runs at least once and at most `r − l + 1` times (the measure `r − _limit` drops by at least one
+microsecond per iteration), and the guarded loop of the model computes the same `_limit` (the stall
+branch of `Rotation.catchUp` is dead code). -/
+theorem catch_up_loop_as_written (F : Form) (ok : StepOK F) (c l r : Int) (hl : F.B c l) (hle : l ≤ r) :
+    r < catchUpRaw F.cfg.step.apply (catchUpFuel l r) l r ∧
+    F.B c (catchUpRaw F.cfg.step.apply (catchUpFuel l r) l r) ∧
+    1 ≤ catchUpIters F.cfg.step.apply (catchUpFuel l r) l r ∧
+    (catchUpIters F.cfg.step.apply (catchUpFuel l r) l r : Int) ≤ r - l + 1 ∧
+    catchUp F.cfg.step.apply (catchUpFuel l r) l r = catchUpRaw F.cfg.step.apply (catchUpFuel l r) l r := by
+  have hP : ∀ l, F.B c l → F.B c (F.cfg.step.apply l) ∧ l + 1 ≤ F.cfg.step.apply l := by
+    intro l hl
+    have := ok.step c l hl
+    exact ⟨this.1, by have := this.2.1; omega⟩
+  have h := catchUp_measure F.cfg.step.apply (F.B c) 1 (by omega) hP r (r - l).toNat l (catchUpFuel l r) hl hle
+    (by rw [Int.ediv_one]; omega) (by unfold catchUpFuel; omega)
+  obtain ⟨a, b, c', d, e⟩ := h
+  exact ⟨a, b, d, by omega, e⟩
+
+/-- `catch_up_interval_cost`: for an interval rotation (`timedelta`, duration spelling) of `d > 0`
+microseconds the loop runs EXACTLY `⌊(r − l)/d⌋ + 1` times and leaves `_limit = l + (⌊(r − l)/d⌋ + 1)·d`:
+the cost of one logging call is linear in the idle gap measured in intervals, without bound
+(observation recorded in design_notes/C07.md: `"1 us"` after an idle hour). -/
+theorem catch_up_interval_cost (d : Int) (hd : 0 < d) (l r : Int) (hle : l ≤ r) :
+    catchUpRaw (Form.interval d).cfg.step.apply (catchUpFuel l r) l r = l + ((r - l) / d + 1) * d ∧
+    (catchUpIters (Form.interval d).cfg.step.apply (catchUpFuel l r) l r : Int) = (r - l) / d + 1 := by
+  have hq0 : 0 ≤ (r - l) / d := Int.ediv_nonneg (by omega) (by omega)
+  have hqle : (r - l) / d ≤ r - l := Int.ediv_le_self _ (by omega)
+  have h := catchUp_interval_closed_form d hd r ((r - l) / d).toNat l (catchUpFuel l r) hle (by omega)
+    (by unfold catchUpFuel; omega)
+  have hf : (Form.interval d).cfg.step.apply = fun t => forwardInterval t d := rfl
+  rw [hf, h.1, h.2]
+  constructor
+  · have : (((r - l) / d).toNat : Int) = (r - l) / d := by omega
+    rw [this]
+  · push_cast; omega
+
+/-- the observation as a number: `"1 us"`, next record an hour later – 3 600 000 001 iterations -/
+example : (catchUpIters (Form.interval 1).cfg.step.apply (catchUpFuel 0 3600000000) 0 3600000000 : Int) = 3600000001 := by
+  rw [(catch_up_interval_cost 1 (by omega) 0 3600000000 (by omega)).2]; decide
+
+/-! ### round 5: a time condition anywhere in a list of conditions -/
+
+/-- `group_never_misses_boundary`: a time condition at ANY position of a `RotationGroup` (members
+`pre` before it, `post` after it, of any kind and in any state), over every history: the members are
+combined by `any` in list order (regenerated `Gen.groupCombinator`); on each call either an earlier
+member fires – the group rotates and the time member, not being asked, keeps its `_limit` – or the
+member is asked, and then a boundary of its own between the latest instant it has seen and the
+record's instant makes the group rotate.  So no boundary is ever lost to the short-circuit. -/
+theorem group_never_misses_boundary (F : Form) (ok : StepOK F) (pre post : List Leaf) (c off : Int)
+    (xs : List CallIn) (hx : ∀ x ∈ xs, x.ctime = c ∧ x.stamp.off = off) :
+    groupCombinator = .anyInOrder ∧
+    initStates (pre ++ .time F.cfg :: post) = initStates pre ++ none :: initStates post ∧
+    GroupAgrees (F.B (c + F.frame off)) (F.frame off) pre post F.cfg (c + F.frame off)
+      (initStates pre) none (initStates post) xs := by
+  refine ⟨by decide, by simp [initStates], ?_⟩
+  exact groupAgrees_from_any_state F ok pre post c off xs _ _ none _ (by simp [initStates]) hx rfl
+
+/-- `group_no_file_mixes_periods`: if a list of conditions lets a record into the current file, then
+its time member (any position) was asked and no boundary of it lies between the latest instant it
+has seen and the record -/
+theorem group_no_file_mixes_periods (F : Form) (ok : StepOK F) (pre post : List Leaf) (c off τ : Int)
+    (sp sq : List (Option Int)) (st : Option Int) (x : CallIn) (hlen : sp.length = pre.length)
+    (hc : x.ctime = c) (ho : x.stamp.off = off) (hinv : Inv F (c + F.frame off) τ st)
+    (hsame : (groupCall (pre ++ .time F.cfg :: post) (sp ++ st :: sq) x).1 = false) :
+    (groupCall pre sp x).1 = false ∧ ¬ ∃ b, F.B (c + F.frame off) b ∧ τ < b ∧ b ≤ x.stamp.utc + F.frame off := by
+  have hat := groupCall_at pre post F.cfg sp sq st x hlen
+  rw [hat] at hsame
+  by_cases hp : (groupCall pre sp x).1 = true
+  · simp [hp] at hsame
+  · simp only [hp, Bool.false_eq_true, if_false] at hsame
+    refine ⟨by simpa using hp, ?_⟩
+    intro hb
+    have ht := (timeCall_step F ok c off τ st x hc ho hinv).2.mpr hb
+    simp [ht] at hsame
+
+/-- non-vacuity: `[size 100, "daily"]` – the size member fires on the record that also crosses
+midnight, the time member is skipped and fires on the next record -/
+example :
+    runCalls [.size 100, .time Form.daily.cfg] (initStates [.size 100, .time Form.daily.cfg])
+      [⟨0, ⟨1, 0⟩, 60, 60, 0⟩, ⟨0, ⟨86400000001, 0⟩, 60, 60, 60⟩, ⟨0, ⟨86400000002, 0⟩, 10, 10, 60⟩,
+       ⟨0, ⟨86400000003, 0⟩, 10, 10, 10⟩] = [false, true, true, false] := by decide +kernel
+
+/-! ### round 5: an aware time does not depend on the zone of the records -/
+
+theorem timeCall_aware_off (ti : TimeInit) (z : Int) (hz : ti.tz = some z) (st : Option Int) (x : CallIn) (off' : Int) :
+    timeCall (Form.dailyAt ti).cfg st x =
+      timeCall (Form.dailyAt ti).cfg st { x with stamp := { x.stamp with off := off' } } := by
+  obtain ⟨h, m, s, us, tz⟩ := ti
+  simp only at hz
+  subst hz
+  cases st <;> rfl
+
+theorem timeRun_aware_off (ti : TimeInit) (z : Int) (hz : ti.tz = some z) (off' : Int) :
+    ∀ (xs : List CallIn) (st : Option Int),
+      timeRun (Form.dailyAt ti).cfg st xs =
+        timeRun (Form.dailyAt ti).cfg st (xs.map fun x => { x with stamp := { x.stamp with off := off' } }) := by
+  intro xs
+  induction xs with
+  | nil => intro st; rfl
+  | cons x xs ih =>
+    intro st
+    simp only [timeRun, List.map_cons]
+    rw [← timeCall_aware_off ti z hz st x off', ih]
+
+theorem latest_map_off (g off' : Int) : ∀ (xs : List CallIn) (τ : Int),
+    latest g τ (xs.map fun x => { x with stamp := { x.stamp with off := off' } }) = latest g τ xs := by
+  intro xs
+  induction xs with
+  | nil => intro τ; rfl
+  | cons x xs ih => intro τ; simp only [List.map_cons, latest]; exact ih _
+
+/-- `aware_time_any_record_zones`: for an AWARE `datetime.time` the main invariant needs no
+hypothesis on the records' zones at all – they may change from record to record (a zone with
+daylight-saving changes, loggers in different zones): `_limit` is the least instant after the
+latest one seen whose time of day IN THE ZONE OF THE TIME is the one asked for. -/
+theorem aware_time_any_record_zones (ti : TimeInit) (z : Int) (hz : ti.tz = some z) (hv : ti.InRange)
+    (c : Int) (x : CallIn) (xs : List CallIn) (hx : ∀ y ∈ x :: xs, y.ctime = c) :
+    ∃ l, (timeRun (Form.dailyAt ti).cfg none (x :: xs)).2 = some l ∧
+      IsNext ((Form.dailyAt ti).B (c + z)) (latest z (c + z) (x :: xs)) l := by
+  have ok : StepOK (Form.dailyAt ti) := step_obligations (Form.dailyAt ti) hv (by simp [Form.Plain])
+  have hfr : ∀ off, (Form.dailyAt ti).frame off = z := by intro off; simp [Form.frame, hz]
+  have h := limit_is_next_boundary (Form.dailyAt ti) ok c 0
+    { x with stamp := { x.stamp with off := 0 } } (xs.map fun y => { y with stamp := { y.stamp with off := 0 } })
+    (by
+      intro y hy
+      rcases List.mem_cons.mp hy with h | h
+      · subst h; exact ⟨hx x (by simp), rfl⟩
+      · obtain ⟨y0, hy0, rfl⟩ := List.mem_map.mp h
+        exact ⟨hx y0 (by simp [hy0]), rfl⟩)
+  rw [hfr 0] at h
+  have hrun := timeRun_aware_off ti z hz 0 (x :: xs) none
+  have hlat := latest_map_off z 0 (x :: xs) (c + z)
+  simp only [List.map_cons] at hrun hlat
+  rw [← hrun, hlat] at h
+  exact h
+
+/-- non-vacuity: 12:00 at +9 h, records arriving in three different zones -/
+example :
+    (timeRun (Form.dailyAt ⟨12, 0, 0, 0, some 32400000000⟩).cfg none
+      [⟨0, ⟨1, 3600000000⟩, 1, 1, 0⟩, ⟨0, ⟨10800000000, -18000000000⟩, 1, 1, 0⟩, ⟨0, ⟨10800000001, 0⟩, 1, 1, 0⟩]).1
+      = [false, true, false] := by decide +kernel
 
 end C07
